@@ -419,13 +419,21 @@ impl EstCase {
             let x = dense(&c.data);
             let xq = dense(&c.queries);
             if c.clf {
-                let p = KNNClassifierParameters::default().with_k(c.k).with_algorithm(c.algo()).with_weight(c.weight()).with_distance(c.m.clone());
+                // documented defaults (k = 3, CoverTree, Uniform) are relied upon, not restated: a setter is
+                // called only where the case differs from the documented default value
+                let mut p = KNNClassifierParameters::default().with_distance(c.m.clone());
+                if c.k != 3 { p = p.with_k(c.k); }
+                if !c.cover { p = p.with_algorithm(c.algo()); }
+                if c.distance_w { p = p.with_weight(c.weight()); }
                 match KNNClassifier::fit(&x, &c.y, p) {
                     Err(_) => None,
                     Ok(knn) => Some((serde_json::to_value(&knn).unwrap_or(Value::Null), knn.predict(&xq).ok())),
                 }
             } else {
-                let p = KNNRegressorParameters::default().with_k(c.k).with_algorithm(c.algo()).with_weight(c.weight()).with_distance(c.m.clone());
+                let mut p = KNNRegressorParameters::default().with_distance(c.m.clone());
+                if c.k != 3 { p = p.with_k(c.k); }
+                if !c.cover { p = p.with_algorithm(c.algo()); }
+                if c.distance_w { p = p.with_weight(c.weight()); }
                 match KNNRegressor::fit(&x, &c.y, p) {
                     Err(_) => None,
                     Ok(knn) => Some((serde_json::to_value(&knn).unwrap_or(Value::Null), knn.predict(&xq).ok())),
